@@ -67,7 +67,7 @@ func (r *rig) stop() {
 	go func() { r.pool.Stop(); close(done) }()
 	select {
 	case <-done:
-	case <-time.After(20 * time.Second):
+	case <-time.After(3 * time.Second):
 	}
 }
 
